@@ -43,3 +43,33 @@ func init() {
 		})
 	}
 }
+
+// rendermove "<hex content> <p1> <p2> ...": ONE DocumentError object is moved with SetIndex through the positions and rendered at
+// each; output = the renderings joined by ";" (each as in "render"). A moved error must render like a fresh one.
+func init() {
+	commands["rendermove"] = func(args []string, line string) string {
+		return guard(func() string {
+			f := strings.Fields(line)
+			content, _ := hex.DecodeString(strings.TrimPrefix(f[0], "-"))
+			e := jerr.NewDocumentError(fs.NewFile("f", content), jerr.Format(jerr.ErrGeneric, "m"))
+			var outs []string
+			for _, ps := range f[1:] {
+				p, _ := strconv.Atoi(ps)
+				e.SetIndex(jbytes.Index(p))
+				one := guard(func() string {
+					ln := e.Line()
+					text := e.SourceSubString()
+					s := e.String()
+					j := strings.LastIndex(s, "\n\t--")
+					if j < 0 {
+						return "UNPARSEABLE"
+					}
+					caret := s[j+4:]
+					return fmt.Sprintf("%d|%s|%d", ln, hex.EncodeToString([]byte(text)), len(caret)-1)
+				})
+				outs = append(outs, one)
+			}
+			return strings.Join(outs, ";")
+		})
+	}
+}
